@@ -1,13 +1,11 @@
 #![no_main]
 use libfuzzer_sys::fuzz_target;
-use swiftmt_verif::props::c07::TotalCase;
 mod common;
 
+// input decoding: swiftmt_verif::props::c07::decode_fuzz_input("fz_header", bytes)
 fuzz_target!(|data: &[u8]| {
-    if data.is_empty() {
-        return;
+    let _ = common::ctx();
+    if let Some(case) = swiftmt_verif::props::c07::decode_fuzz_input("fz_header", data) {
+        common::judge(case);
     }
-    let k = [1u8, 2, 3, 5][data[0] as usize % 4];
-    let text = String::from_utf8_lossy(&data[1..]).to_string();
-    common::judge(TotalCase { kind: "header".into(), target: k.to_string(), input: text, mutation: "libfuzzer".into() });
 });
